@@ -77,7 +77,7 @@ func TestWorker(t *testing.T) {
 	var curSeed atomic.Uint64
 	var beat atomic.Int64
 	beat.Store(time.Now().UnixNano())
-	limit := 90 * time.Second
+	limit := 5 * time.Minute // generous: on an overloaded machine an honest run can take a minute of real time
 	if v := os.Getenv("SIM_RUN_WALL_LIMIT"); v != "" {
 		if d, err := time.ParseDuration(v); err == nil {
 			limit = d
